@@ -119,11 +119,11 @@ def dec_series(c: str, word: str):
     return make_series(f, int(start), vals)
 
 
-def canon_series(c: str, y) -> str:
-    """start + one column, non-finite -> nan, leading/trailing nan dropped (irispie only trims NaN rows)"""
+def canon_series(c: str, y, j: int = 0) -> str:
+    """start + column j, non-finite -> nan, leading/trailing nan dropped (irispie only trims rows that are NaN in every variant)"""
     if y.start is None or y.data.size == 0:
         return "empty"
-    col = [float(v) for v in y.data[:, 0]]
+    col = [float(v) for v in y.data[:, j]]
     cells = [enc_cell(c, v) for v in col]
     lo, hi = 0, len(cells)
     while lo < hi and cells[lo] == "nan":
@@ -176,6 +176,9 @@ def impl_eval(line: str) -> str:
                 x = dec_series(c, ser)
                 y = getattr(ir, kind)(x, dec_shift(shift), initial=dec_init(c, ini), span=dec_span(span))
                 return canon_series(c, y)
+            if op == "cumv":
+                # handled by impl_cumv (one implementation call serves all variants)
+                return "bad-op"
     except Exception as e:
         return err_kind(e)
     return "bad-op"
@@ -666,7 +669,310 @@ def gen_oracle_cases(ctx: Ctx, rng, count: int):
 
 
 def run_oracle_case(ctx: Ctx, case):
-    {"change": oracle_change, "conv": oracle_conv, "roundtrip": oracle_roundtrip}[case["op"]](ctx, case)
+    {"change": oracle_change, "conv": oracle_conv, "roundtrip": oracle_roundtrip, "variants": oracle_variants,
+     "reuse": oracle_reuse, "reuse_change": oracle_reuse_change}[case["op"]](ctx, case)
+
+
+
+# ---------------------------------------------------------------------------------------
+# operands with different numbers of variants (the broadcast rule of set_data)
+# ---------------------------------------------------------------------------------------
+
+def build_initial(f: str, spec):
+    """spec: {"kind": "series", "start": s, "values": rows} | {"kind": "list", "values": [..]} | {"kind": "scalar", "value": v}"""
+    if spec["kind"] == "series":
+        return make_series(f, spec["start"], spec["values"])
+    if spec["kind"] == "list":
+        return [float(v) for v in spec["values"]]
+    return float(spec["value"])
+
+
+def gen_cumv_cases(ctx: Ctx, rng, count: int):
+    """a change series with nv variants cumulated with an `initial` carrying m variants (series, list of numbers or number)"""
+    cases = []
+    for _ in range(count):
+        f = rng.weighted([("Q", 4), ("M", 3), ("Y", 2), ("H", 2), ("D", 1), ("I", 2)])
+        kind = rng.choice(CUMS)
+        nv = rng.choice([2, 3, 3, 4])
+        m = rng.weighted([(nv - 1, 4), (1, 1), (nv, 1), (max(1, nv - 2), 2)])
+        n = rng.randint(4, 16)
+        cls = "dyadic" if kind == "cum_diff" and rng.chance(0.7) else "positive"
+        start = gen_start(rng, f)
+        cols = [gen_values(rng, n, cls, f) for _ in range(nv)]
+        k = -rng.choice([1, 1, 2, 3])
+        direction = rng.choice(["forward", "backward"])
+        lo, hi = start, start + n - 1
+        if direction == "forward":
+            a = rng.randint(min(lo - k, hi), hi); b = rng.randint(a, hi); st = 1
+        else:
+            a = rng.randint(lo, max(lo, hi + k)); b = rng.randint(lo, a); st = -1
+        ik = rng.weighted([("series", 6), ("list", 2), ("scalar", 1)])
+        if ik == "series":
+            icols = [gen_values(rng, n, cls, f) for _ in range(m)] if rng.chance(0.5) else [list(c) for c in cols[:m]]
+            ini = {"kind": "series", "start": start + rng.choice([0, 0, -1, 1]), "values": [list(r) for r in zip(*icols)]}
+        elif ik == "list":
+            ini = {"kind": "list", "values": [rng.dyadic(1, 6, 2) for _ in range(m)]}
+        else:
+            ini = {"kind": "scalar", "value": rng.dyadic(1, 6, 2)}
+        cases.append({"op": "cumv", "kind": kind, "freq": f, "start": start, "shift": k, "span": [a, b, st], "initial": ini,
+                      "values": [list(r) for r in zip(*cols)], "exact": cls == "dyadic" and (ik != "series" or True), "carrier": None})
+        ctx.count(f"cumv:{kind}:{direction}")
+        ctx.count(f"cumv_variants:{nv}<-{m if ik != 'scalar' else 1}:{ik}")
+    return cases
+
+
+def run_cumv(ctx: Ctx, cases, stream="cumv"):
+    """implementation (one call, all variants) against the model (one line per variant, initial chosen by `pickVariant`)"""
+    triples, impl = [], []
+    for case in cases:
+        f, start, kind, k = case["freq"], case["start"], case["kind"], case["shift"]
+        a, b, st = case["span"]
+        rows = rows_of(case)
+        nv = len(rows[0])
+        c = "f" if kind in NEEDS_FLOAT else ("q" if case.get("exact") else "f")
+        x = make_series(f, start, rows)
+        try:
+            with warnings.catch_warnings(), np.errstate(all="ignore"):
+                warnings.simplefilter("ignore")
+                ch = getattr(ir, kind[4:])(x, k)
+                y = getattr(ir, kind)(ch, k, initial=build_initial(f, case["initial"]), span=ir.Span(CLS[f](a), CLS[f](b), st))
+            outs = [canon_series(c, y, j) if (y.start is not None and y.data.shape[1] == nv) else "shape" for j in range(nv)]
+        except Exception as e:
+            outs = [err_kind(e)] * nv
+        ini = case["initial"]
+        if ini["kind"] == "series":
+            irows = [[NAN if v is None else float(v) for v in r] for r in ini["values"]]
+            iw = [enc_series(c, f, ini["start"], [r[i] for r in irows]) for i in range(len(irows[0]))]
+        elif ini["kind"] == "list":
+            iw = ["v=" + enc_cell(c, v) for v in ini["values"]]
+        else:
+            iw = ["v=" + enc_cell(c, ini["value"])]
+        for j in range(nv):
+            if ch.start is None:
+                chw = f"{f}:0:"
+            else:
+                chw = enc_series(c, f, int(ch.start.serial), [float(v) for v in ch.data[:, j]])
+            line = f"cumv {c} {kind} {k} {f}:{a}:{b}:{st} {j} {chw} " + " ".join(iw)
+            triples.append((kind, c, line, bool(case.get("exact")), case))
+            impl.append(outs[j])
+    lines = [t[2] for t in triples]
+    model = ctx.model("C13", lines)
+    ctx.evaluations += len(lines)
+    if triples:
+        ctx.sample({"stream": stream, "request": lines[0][:400], "implementation": impl[0][:300]})
+    if model is None:
+        return
+    ctx.streams_compared[stream] = ctx.streams_compared.get(stream, 0) + len(lines)
+    for (kind, c, line, exact, case), a_, b_ in zip(triples, impl, model):
+        if not lines_agree(c, kind, a_, b_, exact):
+            if len([d for d in ctx.disagreements if d["stream"] == stream]) < 25:
+                ctx.disagree(stream, case, a_, b_)
+        elif ":" in a_:
+            ctx.nontriv(("cumv", kind, case["freq"], len(case["values"][0]), case["initial"]["kind"], line.split()[5]))
+
+
+def oracle_variants(ctx: Ctx, case):
+    """round trip when `initial` carries fewer variants than the change series: by the documented broadcast rule ("repeat
+    the last element") the receiving variants beyond the supplied ones start from the LAST supplied variant; when the
+    original series coincides with that variant on the |k| initial periods, the cumulation must reproduce every variant"""
+    f, start, kind, k, direction = case["freq"], case["start"], case["kind"], case["shift"], case["direction"]
+    m = case["initial_variants"]
+    rows = rows_of(case)
+    nv = len(rows[0])
+    a, b = case["span"]
+    x = make_series(f, start, rows)
+    init = make_series(f, start, [r[:m] for r in rows])
+    ctx.evaluations += 1
+    site = f"roundtrip-variants-{kind}"
+    try:
+        with warnings.catch_warnings(), np.errstate(all="ignore"):
+            warnings.simplefilter("ignore")
+            ch = getattr(ir, kind[4:])(x, k)
+            span = ir.Span(CLS[f](a), CLS[f](b)) if direction == "forward" else ir.Span(CLS[f](a), CLS[f](b), -1)
+            y = getattr(ir, kind)(ch, k, initial=init, span=span)
+    except Exception as e:
+        ctx.fail(site, case, f"{kind} with a {m}-variant initial and a {nv}-variant change raises {e!r}")
+        return
+    got = table_of(y)
+    lo, hi = (a, b) if direction == "forward" else (b, a)
+    for t in range(lo, hi + 1):
+        for j in range(nv):
+            g = float(got[t][j]) if t in got and len(got[t]) == nv else NAN
+            want = rows[t - start][j]
+            if not close(g, want):
+                ctx.fail(site, case, f"period serial {t} variant {j}: round trip with a {m}-variant initial gives {g!r}, original value {want!r}")
+                return
+    ctx.nontriv(("variants", kind, f, k, direction, nv, m))
+
+
+def gen_variant_cases(ctx: Ctx, rng, count: int):
+    cases = []
+    for _ in range(count):
+        f = rng.weighted([("Q", 4), ("M", 3), ("Y", 2), ("H", 2), ("D", 1), ("I", 2)])
+        kind = rng.choice(CUMS)
+        nv = rng.choice([3, 3, 4, 2])
+        m = rng.randint(1, nv - 1) if rng.chance(0.85) else nv
+        if nv >= 3 and rng.chance(0.6):
+            m = rng.randint(2, nv - 1)
+        n = rng.randint(5, 18)
+        cls = "dyadic" if kind == "cum_diff" and rng.chance(0.6) else "positive"
+        start = gen_start(rng, f)
+        k = -rng.choice([1, 1, 2, 3])
+        direction = rng.choice(["forward", "backward"])
+        lo, hi = start, start + n - 1
+        if direction == "forward":
+            a = rng.randint(min(lo - k, hi), hi); b = rng.randint(a, hi)
+            shared = range(a + k, a)            # the periods the recursion takes from `initial`
+        else:
+            a = rng.randint(lo, max(lo, hi + k)); b = rng.randint(lo, a)
+            shared = range(a + 1, a - k + 1)
+        cols = [gen_values(rng, n, cls, f) for _ in range(nv)]
+        for j in range(m, nv):
+            for t in shared:
+                if lo <= t <= hi:
+                    cols[j][t - lo] = cols[m - 1][t - lo]
+        cases.append({"op": "variants", "kind": kind, "freq": f, "start": start, "shift": k, "direction": direction,
+                      "span": [a, b], "initial_variants": m, "values": [list(r) for r in zip(*cols)]})
+    return cases
+
+
+# ---------------------------------------------------------------------------------------
+# the same argument objects reused across several calls
+# ---------------------------------------------------------------------------------------
+
+def span_state(sp):
+    return (repr(sp._start), repr(sp._end), sp._step, bool(sp.needs_resolve))
+
+
+def series_state(x):
+    return (None if x.start is None else (type(x.start).__name__, int(x.start.serial)), x.data.shape, x.data.tobytes())
+
+
+def oracle_reuse(ctx: Ctx, case):
+    """one Span object, one initial series and (per function) one change series, created once and handed to a sequence of
+    cumulation calls: every call must leave its arguments as they were and return what a call with fresh arguments returns
+    -- in particular the round trip must hold on every call, not only on the first"""
+    f, start, k, direction = case["freq"], case["start"], case["shift"], case["direction"]
+    rows = rows_of(case)
+    nv = len(rows[0])
+    x = make_series(f, start, rows)
+    ctx.evaluations += 1
+
+    def fresh_span():
+        sp = case["span"]
+        if sp is None:
+            return None
+        a, b, st = sp
+        return ir.Span(None if a is None else CLS[f](a), None if b is None else CLS[f](b), st)
+
+    span = fresh_span()
+    changes = {}
+    with warnings.catch_warnings(), np.errstate(all="ignore"):
+        warnings.simplefilter("ignore")
+        for i, kind in enumerate(case["calls"]):
+            site = f"reuse-{kind}"
+            try:
+                if kind not in changes:
+                    changes[kind] = getattr(ir, kind[4:])(x, k)
+                ch = changes[kind]
+                before = (None if span is None else span_state(span), series_state(x), series_state(ch))
+                y = getattr(ir, kind)(ch, k, initial=x, span=span)
+                after = (None if span is None else span_state(span), series_state(x), series_state(ch))
+                ref = getattr(ir, kind)(getattr(ir, kind[4:])(make_series(f, start, rows), k), k,
+                                        initial=make_series(f, start, rows), span=fresh_span())
+            except Exception as e:
+                ctx.fail(site, case, f"call #{i + 1} ({kind}) raises {e!r}")
+                return
+            if before != after:
+                what = [n for n, u, v in zip(("span", "initial", "change series"), before, after) if u != v]
+                ctx.fail(site, case, f"call #{i + 1} ({kind}) changed its argument(s) {what}: span {before[0]} -> {after[0]}")
+                return
+            gy, gr = table_of(y), table_of(ref)
+            if set(gy) != set(gr) or any(not close(float(u), float(v)) for t in gy for u, v in zip(gy[t], gr[t])):
+                ctx.fail(site, case, f"call #{i + 1} ({kind}) with the reused span/initial/change objects differs from the same call with fresh objects "
+                                     f"(reused: serials {min(gy, default=None)}..{max(gy, default=None)}, fresh: {min(gr, default=None)}..{max(gr, default=None)})")
+                return
+            if case.get("roundtrip"):
+                lo, hi = case["roundtrip"]
+                for t in range(lo, hi + 1):
+                    for j in range(nv):
+                        g = float(gy[t][j]) if t in gy else NAN
+                        if not close(g, rows[t - start][j]):
+                            ctx.fail(site, case, f"call #{i + 1} ({kind}): period serial {t} variant {j}: round trip gives {g!r}, original value {rows[t - start][j]!r}")
+                            return
+    ctx.nontriv(("reuse", tuple(case["calls"]), f, k, direction, case["span"] is None or case["span"][0] is None))
+
+
+def oracle_reuse_change(ctx: Ctx, case):
+    """the functional forms leave the input series alone, and the in-place method gives the same result; several calls on one object"""
+    f, start = case["freq"], case["start"]
+    rows = rows_of(case)
+    x = make_series(f, start, rows)
+    ctx.evaluations += 1
+    with warnings.catch_warnings(), np.errstate(all="ignore"):
+        warnings.simplefilter("ignore")
+        for i, (kind, shift) in enumerate(case["calls"]):
+            site = f"reuse-{kind}"
+            try:
+                before = series_state(x)
+                y = getattr(ir, kind)(x) if kind in ANNUAL + CONV else getattr(ir, kind)(x, shift)
+                after = series_state(x)
+                z = make_series(f, start, rows)
+                getattr(z, kind)() if kind in ANNUAL + CONV else getattr(z, kind)(shift)
+            except Exception as e:
+                ctx.fail(site, case, f"call #{i + 1} ({kind}, {shift}) raises {e!r}")
+                return
+            if before != after:
+                ctx.fail(site, case, f"call #{i + 1}: irispie.{kind}(x, …) changed x")
+                return
+            gy, gz = table_of(y), table_of(z)
+            if set(gy) != set(gz) or any(not close(float(u), float(v)) for t in gy for u, v in zip(gy[t], gz[t])):
+                ctx.fail(site, case, f"call #{i + 1}: irispie.{kind}(x, {shift}) on a reused x differs from x.{kind}({shift}) on a fresh copy")
+                return
+
+
+def gen_reuse_cases(ctx: Ctx, rng, count: int):
+    cases = []
+    for _ in range(count):
+        f = rng.weighted([("Q", 4), ("M", 3), ("Y", 2), ("H", 2), ("D", 1), ("I", 2)])
+        nv = rng.weighted([(1, 2), (2, 2), (3, 1)])
+        n = rng.randint(6, 20)
+        start = gen_start(rng, f)
+        if rng.chance(0.2):
+            calls = []
+            for _ in range(rng.randint(2, 5)):
+                kind = rng.choice(FLEX + ANNUAL + ["roc_from_pct", "pct_from_roc"])
+                calls.append([kind, -rng.randint(1, 3) if rng.chance(0.7) or f == "I" else rng.choice(KEYWORDS)])
+            cols = [gen_values(rng, n, "positive", f) for _ in range(nv)]
+            cases.append({"op": "reuse_change", "freq": f, "start": start, "calls": calls, "values": [list(r) for r in zip(*cols)]})
+            continue
+        k = -rng.choice([1, 1, 2, 3])
+        direction = rng.choice(["forward", "backward", "backward"])
+        lo, hi = start, start + n - 1
+        cols = [gen_values(rng, n, "positive", f) for _ in range(nv)]
+        if direction == "forward":
+            how = rng.weighted([("explicit", 5), ("open", 2), ("none", 1)])
+            if how == "explicit":
+                a = rng.randint(lo - k, hi); b = rng.randint(a, hi)
+                span, rt = [a, b, rng.choice([1, 1, 2])], [a, b]
+            elif how == "open":
+                span, rt = [None, None, 1], None      # resolved against each change series; the caller's span must stay open
+            else:
+                span, rt = None, [lo - k, hi]
+            if span and span[2] != 1:
+                rt = None       # (round trip on a stepped span: only the periods of the span; checked against the fresh call instead)
+        else:
+            a = rng.randint(lo, hi + k); b = rng.randint(lo, a)
+            span, rt = [a, b, -1], [b, a]
+        # the same function twice, a loop over all four, or a random sequence
+        seq = rng.weighted([("twice", 2), ("all", 3), ("random", 2)])
+        calls = [rng.choice(CUMS)] * 2 if seq == "twice" else list(CUMS) if seq == "all" else [rng.choice(CUMS) for _ in range(rng.randint(2, 5))]
+        if seq == "all" and rng.chance(0.5):
+            rng.shuffle(calls)
+        cases.append({"op": "reuse", "freq": f, "start": start, "shift": k, "direction": direction, "span": span, "roundtrip": rt,
+                      "calls": calls, "values": [list(r) for r in zip(*cols)]})
+        ctx.count(f"reuse:{direction}:{'none' if span is None else 'open' if span[0] is None else 'explicit'}")
+    return cases
 
 
 FIXED_ORACLE_CASES = [
@@ -734,8 +1040,16 @@ def run(ctx: Ctx):
     run_lines(ctx, "change", gen_change_lines(ctx, rng.fork("change"), ctx.n(4000, 80000)))
     run_lines(ctx, "conv", gen_conv_lines(ctx, rng.fork("conv"), ctx.n(800, 12000)))
     run_lines(ctx, "cum", gen_cum_lines(ctx, rng.fork("cum"), ctx.n(3500, 70000)))
+    run_cumv(ctx, gen_cumv_cases(ctx, rng.fork("cumv"), ctx.n(500, 8000)))
     for case in FIXED_ORACLE_CASES:
         run_oracle_case(ctx, case)
+    xrng = ctx.rng.fork("oracle-extra")
+    extra = gen_variant_cases(ctx, xrng.fork("variants"), ctx.n(800, 12000)) + gen_reuse_cases(ctx, xrng.fork("reuse"), ctx.n(600, 10000))
+    for case in extra:
+        run_oracle_case(ctx, case)
+        ctx.count("oracle:" + case["op"])
+    for case in extra[:1] + extra[-1:]:
+        ctx.sample({"stream": "oracle", "case": {**case, "values": case["values"][:4]}})
     orng = ctx.rng.fork("oracle")
     cases = gen_oracle_cases(ctx, orng, ctx.n(6000, 150000))
     for case in cases:
@@ -750,6 +1064,10 @@ def search(ctx: Ctx, seeds):
     for case in FIXED_ORACLE_CASES:
         run_oracle_case(ctx, case)
     rng = ctx.rng.fork("search")
+    for case in gen_variant_cases(ctx, rng.fork("variants"), 3000) + gen_reuse_cases(ctx, rng.fork("reuse"), 2000):
+        run_oracle_case(ctx, case)
+        if len(ctx.failures) >= 5:
+            return
     for case in gen_oracle_cases(ctx, rng, 20000):
         run_oracle_case(ctx, case)
         if len(ctx.failures) >= 5:
@@ -771,5 +1089,7 @@ def replay(ctx: Ctx, payload):
             line = case["line"]
             ws = line.split()
             run_lines(ctx, "replay", [(ws[2], ws[1], line, bool(case.get("exact")))])
+        elif case.get("op") == "cumv":
+            run_cumv(ctx, [case], "replay")
         elif "op" in case:
             run_oracle_case(ctx, case)
